@@ -182,9 +182,29 @@ def run_impl(case):
     if kind == 'formal':
         def go():
             from fcapy.context import FormalContext
-            K = FormalContext(data=[list(r) for r in case['table']],
-                              object_names=[_oname(k) for k in case['onames']],
-                              attribute_names=[_aname(k) for k in case['anames']], backend=case['backend'])
+            sub = case.get('sub')
+            if not sub:
+                K = FormalContext(data=[list(r) for r in case['table']],
+                                  object_names=[_oname(k) for k in case['onames']],
+                                  attribute_names=[_aname(k) for k in case['anames']], backend=case['backend'])
+            else:
+                # the context under test is a SUB-context K0[rows, cols] of a bigger one, taken with unsorted index
+                # lists; case['table'] (what the model works on) is the correspondingly permuted sub-table
+                P, rows, cols = sub['parent'], sub['rows'], sub['cols']
+                pon = ['g%d' % (700 + r) for r in range(len(P))]
+                pan = ['m%d' % (700 + c) for c in range(len(P[0]))]
+                for i, r in enumerate(rows):
+                    pon[r] = _oname(case['onames'][i])
+                for j, c in enumerate(cols):
+                    pan[c] = _aname(case['anames'][j])
+                K0 = FormalContext(data=[list(r) for r in P], object_names=pon, attribute_names=pan,
+                                   backend=case['backend'])
+                if sub['form'] == 'cols':
+                    K = K0[:, list(cols)]
+                elif sub['form'] == 'rows':
+                    K = K0[list(rows)]
+                else:
+                    K = K0[list(rows), list(cols)]
             bg, bo = case['base_gen'], case['base_objs']
             if case.get('warm'):
                 # questions with other base sets put to the SAME context object first (results discarded)
@@ -327,6 +347,7 @@ def stats(case):
                 'by': 'name' if case['named'] else 'index/%d' % case.get('call', 0),
                 'base_gen': 'none' if case['base_gen'] is None else
                         ('repeats' if len(set(case['base_gen'])) < len(case['base_gen']) else len(case['base_gen'])),
+                'sub_context': (case.get('sub') or {}).get('form', 'no'),
                 'base_objs': case.get('bo_kind', ''), 'context_warm_up': bool(case.get('warm')), 'intent': 'closed' if case.get('closed') else 'other'}
     if case['kind'] == 'mv':
         return {'kind': 'mv', 'mv_shape': '%dx%d' % (case['n'], len(case['cols'])),
@@ -341,6 +362,25 @@ def stats(case):
 
 # ------------------------------------------------------------------ generators
 
+def _sub_of(rng, t):
+    """a parent table and unsorted row / column index lists such that parent[rows][:, cols] == t"""
+    h, w = len(t), len(t[0])
+    form = rng.choice(['both', 'both', 'cols', 'rows'])
+    H = h if form == 'cols' else h + rng.randint(0, 2)
+    W = w if form == 'rows' else w + rng.randint(0, 2)
+    rows = list(range(h)) if form == 'cols' else rng.sample(range(H), h)
+    cols = list(range(w)) if form == 'rows' else rng.sample(range(W), w)
+    if form != 'rows' and w >= 2 and cols == sorted(cols):
+        cols = cols[::-1]                      # insist on an unsorted column listing
+    if form != 'cols' and h >= 2 and rows == sorted(rows) and rng.random() < 0.7:
+        rows = rows[::-1]
+    P = [[rng.random() < 0.5 for _ in range(W)] for _ in range(H)]
+    for i, r in enumerate(rows):
+        for j, c in enumerate(cols):
+            P[r][c] = bool(t[i][j])
+    return {'parent': P, 'rows': rows, 'cols': cols, 'form': form}
+
+
 def _formal(rng, t, intent, bg, bo, bo_kind, closed, named=None, backend=None, call=None, tkind=''):
     h, w = len(t), len(t[0])
     named = (rng.random() < 0.3) if named is None else named
@@ -350,6 +390,8 @@ def _formal(rng, t, intent, bg, bo, bo_kind, closed, named=None, backend=None, c
          'bo_kind': bo_kind, 'closed': closed, 'tkind': tkind}
     if tkind != 'exhaustive' and rng.random() < 0.3:
         c['warm'] = rng.randrange(1, 10 ** 6)
+    if tkind != 'exhaustive' and rng.random() < 0.3:
+        c['sub'] = _sub_of(rng, t)
     if intent and tkind != 'exhaustive' and rng.random() < 0.12:
         c['intent'] = list(intent) + [rng.choice(list(intent))]     # an intent listed with a repeat
         intent = c['intent']
